@@ -146,6 +146,9 @@ class Float(DecisionPoint):
       raise ValueError(
           f'Expect float value. Encountered: {dna.value}, '
           f'Location: {self.location.path}.')
+    if dna.value != dna.value:
+      raise ValueError(
+          f'DNA value should not be NaN. Location: {self.location.path}.')
     if dna.value < self.min_value:
       raise ValueError(
           f'DNA value should be no less than {self.min_value}. '
